@@ -177,25 +177,59 @@ class FileUnderTest(object):
             ctx.count('fresh_snapshots')
         # a fresh listing positioned directly at index i must also agree with one stepped to from the start
         self.lst = T.t2listing(path)
+        self.attach_clock()
         self.hsel = history_selection(self.lst)
         self.alpha = alphabet(self.times, self.steps)
+
+    def attach_clock(self):
+        """Logical clock on the live object: an action may read at most 64 + 6 x (lines in the file) lines and at most
+        1000 times in a row at end of file; more than that is reported as non-termination (never wall time)."""
+        from vf.clock import CountingFile, count_lines
+        if not hasattr(self, 'budget'):
+            self.budget = 64 + 6 * count_lines(self.path)
+        self.proxy = CountingFile(self.lst._file, self.budget)
+        self.lst._file = self.proxy
+
+    def reopen(self):
+        try:
+            self.lst.close()
+        except Exception:
+            pass
+        self.lst = R.t2listing.t2listing(self.path)
+        self.attach_clock()
 
     def run(self, seq, reset=True):
         """Executes a sequence from the state of a freshly opened listing (index 0)."""
         ctx = self.ctx
         case = {'file': self.label, 'actions': [list(a) for a in seq]}
+        from vf.core import StepBudgetExceeded
         lst = self.lst
         if reset:
-            lst.index = 0
+            self.proxy.reset()
+            try:
+                with ctx.guard(case, where='reset-to-first') as g:
+                    lst.index = 0
+            except StepBudgetExceeded as e:
+                ctx.violation('does-not-terminate:reset-to-first', '%s: index = 0: %s' % (self.label, e), case)
+                self.reopen()
+                return 0
+            if g.raised is not None:
+                self.reopen()
+                return 0
         cur = lst.index
         changes = 0
         for a in seq:
-            with ctx.guard(case, where=a[0]) as g:
-                ret = do_action(lst, a, self.hsel)
+            self.proxy.reset()
+            try:
+                with ctx.guard(case, where=a[0]) as g:
+                    ret = do_action(lst, a, self.hsel)
+            except StepBudgetExceeded as e:
+                ctx.violation('does-not-terminate:%s' % a[0], '%s: action %r: %s' % (self.label, list(a), e), case)
+                self.reopen()
+                return changes
             if g.raised is not None:
                 # the object may be in any state now: reopen
-                self.lst.close()
-                self.lst = R.t2listing.t2listing(self.path)
+                self.reopen()
                 return changes
             exp, expret = expected_index(cur, a, self.times, self.steps)
             ctx.count('actions_checked')
@@ -211,8 +245,7 @@ class FileUnderTest(object):
             d = same_state(snapshot(lst), self.fresh[exp])
             if d:
                 ctx.violation('state-differs-from-fresh:after:%s' % a[0], '%s after %r: %s' % (self.label, [list(x) for x in seq], d), case)
-                self.lst.close()
-                self.lst = R.t2listing.t2listing(self.path)
+                self.reopen()
                 return changes
             if exp != cur:
                 changes += 1
@@ -279,6 +312,16 @@ def run_file(ctx, path, label, spec, expect_times=None):
         return
     ctx.count('files')
     ctx.see('simulators', fut.simulator)
+    # a listing of ANOTHER simulator family opened after the live object exists and kept open while it is used:
+    # what one listing object does must not depend on which other listings are open
+    other = None
+    others = [f for f in listing_files() if ('/AUTOUGH2/' in f) != (fut.simulator == 'AUTOUGH2') or ('/TOUGHplus/' in f) != (fut.simulator == 'TOUGH+')]
+    if others:
+        try:
+            other = R.t2listing.t2listing(others[len(label) % len(others)])
+            ctx.count('other_family_listing_open')
+        except Exception:
+            other = None
     # positioned directly vs stepped: fresh[i] was taken by 'index = i' on a fresh object; stepping with next() must agree
     seq = [('first',)] + [('next',)] * (fut.N + 1) + [('prev',)] * (fut.N + 1)
     fut.run(seq)
@@ -288,6 +331,8 @@ def run_file(ctx, path, label, spec, expect_times=None):
         ctx.count('sequences')
         ctx.case((label, 'single'), nontrivial=False)
         fut.lst.close()
+        if other is not None:
+            other.close()
         return
     depth = spec['depth']
     if depth is not None and (len(fut.alpha) > 70 or fut.rows > 700):
@@ -317,6 +362,8 @@ def run_file(ctx, path, label, spec, expect_times=None):
         ctx.count('sequences')
         ctx.case((label, 'random', tuple(seq)), nontrivial=ch >= 2)
     fut.lst.close()
+    if other is not None:
+        other.close()
 
 
 def run_shard(ctx, spec):
